@@ -21,7 +21,7 @@ RULE = ('Hypothesis-generated programs dense in frame traffic and allocation (ar
         'shards dynamic array lengths come from argv and are swept up to the largest length the allocation guard admits (and '
         'one beyond), so that the allocation guard itself is the binding constraint; plus an exhaustive grid of small programs '
         'around one dynamic array (earlier expression depth 0-6 x element type x shape of the code that follows) run at every '
-        'stack size from 0 up to two above the first that succeeds, and a grid of write(int)/writeln(int) call sites (value of 1 digit / more digits than a word / the most negative 16-bit value) that are the deepest point of a frame holding live arrays of every kind, in @is_you, a block, a callee; dynamic lengths whose size in bytes wraps around the word (ws >= 3) at several stack sizes. Oracle (a): a '
+        'stack size from 0 up to two above the first that succeeds, and a grid of write(int)/writeln(int) call sites (value of 1 digit / more digits than a word / the most negative 16-bit value) that are the deepest point of a frame holding live arrays of every kind, in @is_you, a block, a callee; dynamic lengths whose size in bytes wraps around the word (ws >= 3) at several stack sizes; arrays of constant length 255 / 256 indexed through byte-typed and int values 254..256. Oracle (a): a '
         'replay monitor judges every load, store and taken jump of the committed path: fp-based accesses within [ap, fp); '
         'element accesses inside the live array extent / global object their base belongs to (extents tracked from every '
         'change of ap); array-literal stores inside the newest extent; nothing through a non-fp base into the frame region, '
@@ -310,6 +310,59 @@ def check_huge_length(stats, name, src, ws, n, S):
     return None
 
 
+def byte_index_programs():
+    """Arrays whose constant length sits at the byte boundary (255 / 256), indexed through values of static type byte
+    (variable, cast, array element) and int: a byte can reach 255, one past the end of 255 elements."""
+    out = []
+    zero = {'int': '0', 'byte': "'\\0'", 'bool': 'false'}
+    show = {'int': 'write(%s);', 'byte': 'write(%s is int);', 'bool': 'write(%s);'}
+    newv = {'int': '9', 'byte': "'9'", 'bool': 'true'}
+    for el in ('int', 'byte', 'bool'):
+        for n in (255, 256):
+            for where in ('global', 'stack'):
+                lit_ = '[%s]' % ', '.join([zero[el]] * n)
+                for ixf in ('bi', '(i is byte)', 'bidx[0]', 'i'):
+                    for form in ('read', 'write', 'compound'):
+                        if form == 'compound' and el == 'bool':
+                            continue
+                        glob = 'int canary = 4243;\n' + ('%s[] A = %s;\nint after = 777;\n' % (el, lit_) if where == 'global' else '')
+                        pre = 'byte bi = i is byte; byte[] bidx = [i is byte, 1]; int x0 = 0;'
+                        if where == 'stack':
+                            pre += ' %s[] A = %s; A[0] = %s; int[] nb = [5, 6];' % (el, lit_, zero[el])
+                        tgt = 'A[%s]' % ixf
+                        stmt = {'read': show[el] % tgt, 'write': '%s = %s; %s' % (tgt, newv[el], show[el] % tgt),
+                                'compound': '%s += %s; %s' % (tgt, "1" if el == 'int' else "'\\x01'", show[el] % tgt)}[form]
+                        tail = 'write(canary); write(after);' if where == 'global' else 'write(canary); write(nb[0]);'
+                        src = '%sempty @is_you(int i) {\n  %s\n  write(\'B\');\n  %s\n  %s\n}\n' % (glob, pre, stmt, tail)
+                        out.append(('byteidx:%s:%d:%s:%s:%s' % (el, n, where, form, ixf), src))
+    return out
+
+
+def check_small(stats, name, src, ws, n, S):
+    """One small program at one stack size: monitor quiet, events equal to the reference's (which may be a fault)."""
+    from ref.parse import parse_program
+    from ref.types import check_program as tcheck
+    prog = parse_program(src)
+    tcheck(prog)
+    ref = reference_for(prog, [n], ws, stack_words=S)
+    if ref.kind == 'budget' or ref.kind.startswith('undefined') or ref.kind == 'halt':
+        raise Discard('reference: ' + ref.kind)
+    run, mon = monitored_run(compile_lines(src, ws, S, False), [str(n)])
+    stats.evaluated()
+    stats.cls('byte_index_runs')
+    where = '%s ws=%d n=%d S=%d' % (name, ws, n, S)
+    if run.res is None:
+        return ('asm', where + ': ' + run.outcome + '\n' + src)
+    if run.res.faults:
+        return ('machine_fault', '%s: machine fault on a (possibly speculative) path: %r\n%s' % (where, run.res.faults[:3], src[-600:]))
+    if mon.violations:
+        pc, what, ins, stmt, fn = mon.violations[0]
+        return ('mem:' + what.split(' ')[0] + ':byteidx', '%s: %s  [pc %d `%s`; %s]\n%s' % (where, what, pc, ins, stmt, src[-600:]))
+    if run.events != ref.events or run.outcome != svm.FOREVER:
+        return ('byteidx_diff', '%s: events %s, reference %s\n%s' % (where, fmt_events(run.events), fmt_events(ref.events), src[-600:]))
+    return None
+
+
 def huge_lengths(ws):
     full = (1 << (8 * ws)) // ws
     hi = (1 << (8 * ws - 1)) - 1
@@ -321,6 +374,19 @@ def run_shard(k, seed, tier):
     stats = Stats()
     if isinstance(k, tuple):
         progs = vla_grid_programs() + write_site_programs()
+        if k[1] == 1:
+            for name, src in byte_index_programs():
+                for ws in ((2,) if tier == 'quick' else (2, 3, 4)):
+                    for n in ((254, 255, 256) if tier == 'quick' else (0, 254, 255, 256, 257, 511, -1)):
+                        try:
+                            m = check_small(stats, name, src, ws, n, S0)
+                        except Discard as d:
+                            stats.discard(d.why)
+                            continue
+                        if n in (255, 256):
+                            stats.nt('byteidx:%s:%d:%d' % (name, ws, n))
+                        if m:
+                            stats.violation({'kind': 'byte_index', 'value': [name, ws, n], 'message': m[1], 'signature': m[0]})
         if k[1] == 0:
             for name, src in vla_grid_programs():
                 if not (name.startswith(('early0:', 'early3:')) and name.endswith((':locals', ':second'))):
@@ -372,6 +438,14 @@ def run_shard(k, seed, tier):
 
 
 def replay(case):
+    if case.get('kind') == 'byte_index':
+        name, ws, n = case['value']
+        src = dict(byte_index_programs())[name]
+        try:
+            m = check_small(Stats(), name, src, ws, n, S0)
+        except Discard:
+            return None
+        return m[1] if m else None
     if case.get('kind') == 'huge_length':
         name, ws, n, S = case['value']
         for n2, src in vla_grid_programs():
